@@ -38,6 +38,8 @@ class Project:
         plain = name   # helper files (scenario, event log, gates) keep shell-inert names
         if hostile.get("odd_root"):
             name = name + " pr\u00f6j (1)"
+        if hostile.get("colon_root"):
+            name = name + " 10:30"   # time-stamped folder names; ':' is also COND_DEPS' separator
         self.root = os.path.join(scratch_root, name)
         name = plain
         self.tasks = tasks
